@@ -62,13 +62,19 @@ impl<T: ?Sized> Mutex<T> {
         let cur = SyncBlocker::current();
         // register blocker first
         self.to_wake.push(cur.clone());
+        #[cfg(may_verif)]
+        may_queue::verif::point(may_queue::verif::site::MUTEX_LOCK_PUSHED, self as *const Self as *const () as usize);
         // inc the cnt, if it's the first grab, unpark the first waiter
         if self.cnt.fetch_add(1, Ordering::SeqCst) == 0 {
+            #[cfg(may_verif)]
+            may_queue::verif::point(may_queue::verif::site::MUTEX_LOCK_COUNTED, self as *const Self as *const () as usize);
             self.to_wake
                 .pop()
                 .map(|w| self.unpark_one(&w))
                 .expect("got null blocker!");
         }
+        #[cfg(may_verif)]
+        may_queue::verif::point(may_queue::verif::site::MUTEX_LOCK_COUNTED, self as *const Self as *const () as usize);
         loop {
             match cur.park(None) {
                 Ok(_) => {
@@ -82,6 +88,8 @@ impl<T: ?Sized> Mutex<T> {
                     } else {
                         false
                     };
+                    #[cfg(may_verif)]
+                    may_queue::verif::point(may_queue::verif::site::MUTEX_CANCEL_CHECK, self as *const Self as *const () as usize);
                     // check the unpark status
                     if cur.is_unparked() {
                         if b_ignore {
@@ -91,6 +99,8 @@ impl<T: ?Sized> Mutex<T> {
                     } else {
                         // register
                         cur.set_release();
+                        #[cfg(may_verif)]
+                        may_queue::verif::point(may_queue::verif::site::MUTEX_CANCEL_SETREL, self as *const Self as *const () as usize);
                         // re-check unpark status
                         if cur.is_unparked() && cur.take_release() {
                             if b_ignore {
@@ -125,6 +135,8 @@ impl<T: ?Sized> Mutex<T> {
 
     fn unpark_one(&self, w: &SyncBlocker) {
         w.unpark();
+        #[cfg(may_verif)]
+        may_queue::verif::point(may_queue::verif::site::MUTEX_UNPARKED, self as *const Self as *const () as usize);
         if w.take_release() {
             self.unlock();
         }
@@ -132,6 +144,8 @@ impl<T: ?Sized> Mutex<T> {
 
     fn unlock(&self) {
         if self.cnt.fetch_sub(1, Ordering::SeqCst) > 1 {
+            #[cfg(may_verif)]
+            may_queue::verif::point(may_queue::verif::site::MUTEX_UNLOCK_SUBBED, self as *const Self as *const () as usize);
             self.to_wake
                 .pop()
                 .map(|w| self.unpark_one(&w))
